@@ -322,10 +322,12 @@ def oracle_optimizer(co, rng, n, pattern, level, general=None, probe_cols=None):
         general = len(pattern) <= 10
     items = num_items(rng, pattern, general)
     ref_items = copy.deepcopy(items)
+    # qubit_list names the register's qubits: only how many there are may matter, not which (physical) labels they carry
+    qlist = list(range(n)) if rng.random() < 0.5 else sorted(rng.sample(range(3 * n + 2), n))
     try:
-        out = co.Optimizer(level_opt=level, circ_list=items, qubit_list=list(range(n))).optimize()
+        out = co.Optimizer(level_opt=level, circ_list=items, qubit_list=qlist).optimize()
     except Exception as e:  # noqa
-        return "optimizer raised %s on a well-formed list" % type(e).__name__
+        return "optimizer raised %s on a well-formed list (qubit_list=%r)" % (type(e).__name__, qlist)
     if not isinstance(out, list):
         return "optimizer returned %s" % type(out).__name__
     if len(out) > len(pattern):
@@ -367,10 +369,11 @@ def oracle_backend(be, rng, n, pattern, general=None):
     d = 2 ** n
     psi0 = np.array([rng.choice([0, 1, -1, 1j, -1j, 2, 1 + 1j, -2j]) for _ in range(d)], dtype=complex)
     psi_keep = psi0.copy()
+    qlay = None if rng.random() < 0.5 else sorted(rng.sample(range(3 * n + 2), n))      # the optional layout argument: physical labels of the register
     try:
-        out = be.BinaryBackend(nqubit=n).statevector(items, psi0)
+        out = be.BinaryBackend(nqubit=n).statevector(items, psi0) if qlay is None else be.BinaryBackend(nqubit=n).statevector(items, psi0, qlay)
     except Exception as e:  # noqa
-        return "BinaryBackend.statevector raised %s on a well-formed list" % type(e).__name__
+        return "BinaryBackend.statevector raised %s on a well-formed list (qubit_layout=%r)" % (type(e).__name__, qlay)
     out = np.asarray(out)
     if out.shape != (d,):
         return "statevector of shape %r" % (out.shape,)
